@@ -671,4 +671,172 @@ def finish (st : St) (nv nb : Nat) : M Heap := do
   let h ← destroyVecs st.heap st.vec nv
   destroyBufs h st.buf nb
 
+/-! ## allocation failure (fault injection)
+
+`alloc_.allocate(n)` may throw `std::bad_alloc`.  `Inj` is the failure schedule of one operation: the `failAt`-th allocation
+from now throws, and so does every request for more than `failSize` elements.  In the code as it is, `allocate` is the first
+effect of every reallocating path (object_impl.hpp `insert` ×3 reallocating branch, `reallocate`; buffer/object_impl.hpp
+`object(size, A)`, `resize_write_area`; dynamic_array), so the state at the throw is the state before the member call:
+`vAllocReq` / `bAllocReq` give the request such a member would make (same branch conditions as the member), the `…F`
+functions place the throw there and otherwise run the member.  Members that allocate repeatedly (`insert_impl` for input
+iterators, the constructors built on it, `read_from` = `Buffer{0U}` + `resize_write_area`) thread the schedule through their
+steps; a constructor that throws leaves no object behind (its register is null) — and no destructor runs for the object under
+construction, so what its earlier steps allocated stays allocated (`constructF`). -/
+
+inductive Out (σ : Type) where
+  | done (s : σ)
+  | threw (s : σ)
+
+structure Inj where
+  failAt : Option Nat
+  failSize : Option Nat
+
+def Inj.none : Inj := ⟨Option.none, Option.none⟩
+
+/-- `none`: this allocation throws; `some i'`: it succeeds, `i'` is the schedule for the following ones -/
+def Inj.grant (i : Inj) (n : Nat) : Option Inj :=
+  if (match i.failSize with | some m => decide (n > m) | Option.none => false) then Option.none else
+  match i.failAt with
+  | some 1 => Option.none
+  | some (k + 2) => some ⟨some (k + 1), i.failSize⟩
+  | _ => some i
+
+/-- the allocation request of a member that allocates at most once (`none`: it does not allocate) -/
+def vAllocReq (g : Nat → Nat → Nat) (v : RV) : VOp → Option Nat
+  | .pushBack _ => if v.last + 1 > v.cap then some (g (v.last + 1) v.cap) else Option.none
+  | .insert1 _ _ => if v.last + 1 > v.cap then some (g (v.last + 1) v.cap) else Option.none
+  | .insertN _ n _ => if v.last + n > v.cap then some (g (v.last + n) v.cap) else Option.none
+  | .insertRange _ xs true => if ¬ xs.isEmpty ∧ v.last + xs.length > v.cap then some (g (v.last + xs.length) v.cap) else Option.none
+  | .insertSelf _ a b => if a ≠ b ∧ v.last + (b - a) > v.cap then some (g (v.last + (b - a)) v.cap) else Option.none
+  | .resize n _ => if n > v.last ∧ n > v.cap then some (g n v.cap) else Option.none
+  | .reserve n => if n ≤ v.cap then Option.none else some (g n v.cap)
+  | .shrink => some v.last
+  | _ => Option.none
+
+/-- `insert(position, value)` under a schedule -/
+def insert1F (i : Inj) (g : Nat → Nat → Nat) (h : Heap) (v : RV) (pos : Nat) (s : Src) : M (Out (Heap × RV) × Inj) :=
+  match vAllocReq g v (.insert1 pos s) with
+  | Option.none => do let r ← insert1 g h v pos s; pure (.done (r.1, r.2.1), i)
+  | some n =>
+    match i.grant n with
+    | Option.none => pure (.threw (h, v), i)
+    | some i' => do let r ← insert1 g h v pos s; pure (.done (r.1, r.2.1), i')
+
+/-- the single-pass loop: every step may allocate; at a throw the elements inserted so far stay -/
+def insertInputF (i : Inj) (g : Nat → Nat → Nat) (h : Heap) (v : RV) (pos : Nat) : List Int → M (Out (Heap × RV) × Inj)
+  | [] => pure (.done (h, v), i)
+  | x :: xs => do
+    let r ← insert1F i g h v pos (.val x)
+    match r.1 with
+    | .threw s => pure (.threw s, r.2)
+    | .done s => insertInputF r.2 g s.1 s.2 (pos + 1) xs
+
+def vstepF (i : Inj) (g : Nat → Nat → Nat) (h : Heap) (v : RV) : VOp → M (Out (Heap × RV × Option Nat) × Inj)
+  | .insertRange pos xs false =>
+    if pos > v.last then .error .oob else do
+    let r ← insertInputF i g h v pos xs
+    match r.1 with
+    | .threw s => pure (.threw (s.1, s.2, Option.none), r.2)
+    | .done s => pure (.done (s.1, s.2, Option.none), r.2)
+  | o =>
+    match vAllocReq g v o with
+    | Option.none => do let r ← vstep g h v o; pure (.done r, i)
+    | some n =>
+      match i.grant n with
+      | Option.none => pure (.threw (h, v, Option.none), i)
+      | some i' => do let r ← vstep g h v o; pure (.done r, i')
+
+/-- constructors: `impl_{alloc}` (null pointers), then the insert the constructor body calls -/
+def constructF (i : Inj) (g : Nat → Nat → Nat) (h : Heap) : Ctor → M (Out (Heap × RV) × Inj)
+  | .dflt => pure (.done (h, RV.null), i)
+  | c =>
+    let o : VOp := match c with
+      | .count n x => .insertN 0 n (.val x)
+      | .range xs fwd => .insertRange 0 xs fwd
+      | .il xs => .insertRange 0 xs true
+      | .dflt => .clear
+    do
+    let r ← vstepF i g h RV.null o
+    match r.1 with
+    | .threw s => pure (.threw (s.1, s.2.1), r.2)
+    | .done s => pure (.done (s.1, s.2.1), r.2)
+
+/-- the request `resize_write_area(sz)` would make -/
+def bAllocReq (g : Nat → Nat → Nat) (b : Buf) (sz : Nat) : Option Nat :=
+  if b.cap - b.readEnd ≥ sz then Option.none else some (g (sz + b.readEnd) b.cap)
+
+def bstepF (i : Inj) (g : Nat → Nat → Nat) (h : Heap) (b : Buf) (o : BOp) : M (Out (Heap × Buf × Option Nat) × Inj) :=
+  let req := match o with
+    | .resize n => bAllocReq g b n
+    | .fillWritten _ => Option.none
+    | .append n _ => bAllocReq g b n
+    | .appendOpt n _ => bAllocReq g b n
+  match req with
+  | Option.none => do let r ← bstep g h b o; pure (.done r, i)
+  | some n =>
+    match i.grant n with
+    | Option.none => pure (.threw (h, b, Option.none), i)     -- `append_from(std::move(b), …)`: nothing was moved yet
+    | some i' => do let r ← bstep g h b o; pure (.done r, i')
+
+/-- `read_from` / `read_from_opt` / `read_chars`: `Buffer{0U}` allocates, then `resize_write_area(size)`.
+`some h'`: an allocation throws, `h'` is the heap after unwinding (the temporary is destroyed); `none`: both succeed -/
+def readThrowF (i : Inj) (g : Nat → Nat → Nat) (h : Heap) (size : Nat) : M (Option Heap) :=
+  match i.grant 0 with
+  | Option.none => pure (some h)
+  | some i1 =>
+    let c := Buf.ctor h 0
+    match bAllocReq g c.2 size with
+    | Option.none => pure Option.none
+    | some n =>
+      match i1.grant n with
+      | Option.none => do let h1 ← Buf.deallocate c.1 c.2; pure (some h1)
+      | some _ => pure Option.none
+
+def stepF (i : Inj) (g : Nat → Nat → Nat) (st : St) : Op → M (Out St × Option Nat)
+  | .v r o => do
+    let x ← vstepF i g st.heap (st.vec r) o
+    match x.1 with
+    | .done y => pure (.done ⟨y.1, upd st.vec r y.2.1, st.buf⟩, y.2.2)
+    | .threw y => pure (.threw ⟨y.1, upd st.vec r y.2.1, st.buf⟩, Option.none)
+  | .ctor r c => do
+    let h ← deallocate st.heap (st.vec r)
+    let x ← constructF i g h c
+    match x.1 with
+    | .done y => pure (.done ⟨y.1, upd st.vec r y.2, st.buf⟩, Option.none)
+    | .threw y => pure (.threw ⟨y.1, upd st.vec r RV.null, st.buf⟩, Option.none)
+  | .bctor b n => do
+    let h ← Buf.deallocate st.heap (st.buf b)
+    match i.grant n with
+    | Option.none => pure (.threw ⟨h, st.vec, upd st.buf b Buf.null⟩, Option.none)
+    | some _ => let x := Buf.ctor h n; pure (.done ⟨x.1, st.vec, upd st.buf b x.2⟩, Option.none)
+  | .bread b size xs => do
+    let h ← Buf.deallocate st.heap (st.buf b)
+    match (← readThrowF i g h size) with
+    | some h' => pure (.threw ⟨h', st.vec, upd st.buf b Buf.null⟩, Option.none)
+    | Option.none => do let x ← step g st (.bread b size xs); pure (.done x.1, x.2)
+  | .breadOpt b size xs => do
+    let h ← Buf.deallocate st.heap (st.buf b)
+    match (← readThrowF i g h size) with
+    | some h' => pure (.threw ⟨h', st.vec, upd st.buf b Buf.null⟩, Option.none)
+    | Option.none => do let x ← step g st (.breadOpt b size xs); pure (.done x.1, x.2)
+  | .b k o => do
+    let x ← bstepF i g st.heap (st.buf k) o
+    match x.1 with
+    | .done y => pure (.done ⟨y.1, st.vec, upd st.buf k y.2.1⟩, y.2.2)
+    | .threw y => pure (.threw ⟨y.1, st.vec, upd st.buf k y.2.1⟩, Option.none)
+  | o => do let x ← step g st o; pure (.done x.1, x.2)     -- swaps, moves, to_raw_vector: no allocation
+
+/-- the seeded variant of `reallocate` (free first, then allocate, for an empty vector): the state at the throw
+has the pointers of a block that is no longer allocated -/
+def reallocateFreeFirstF (i : Inj) (h : Heap) (v : RV) (newCap : Nat) : M (Out (Heap × RV)) :=
+  if v.last = 0 then do
+    let h1 ← deallocate h v
+    match i.grant newCap with
+    | Option.none => pure (.threw (h1, v))
+    | some _ => let a := h1.alloc newCap; pure (.done (a.1, ⟨some a.2, 0, newCap⟩))
+  else
+    match i.grant newCap with
+    | Option.none => pure (.threw (h, v))
+    | some _ => do let r ← reallocate h v newCap; pure (.done r)
+
 end Fcppt.C07
